@@ -102,7 +102,7 @@ Definition line_slurp (i : list line) : str * list line * N :=
   (concat i, [], nlen (concat i)).
 
 Definition line_ops : input_ops (list line) lsource :=
-  mkOps (list line) lsource line_pull line_read line_slurp.
+  mkOps (list line) lsource line_pull line_read line_slurp nest_stub.
 
 (* how the model's sources and descriptors look at line level *)
 Definition abs_src (s : source) : lsource :=
@@ -114,6 +114,24 @@ Definition abs_src (s : source) : lsource :=
   end.
 
 Definition abs_dev (d : dev) : list line := split_lines (concat d).
+
+(* Nested loops at line level: the text of `eval` is a list of lines already;
+   the file of `.` is its lines.  The nested loop runs on a source of its own,
+   so parsing the nested text takes nothing from standard input. *)
+Definition line_src (s : nsrc) : lsource :=
+  match s with NMem ls => LLines ls | NFile b => LLines (split_lines b) end.
+
+Fixpoint line_ops_at (parser : list pstate -> list line -> pres) (fuel pf lvl : nat)
+  : input_ops (list line) lsource :=
+  mkOps (list line) lsource line_pull line_read line_slurp
+    (match lvl with
+     | O => nest_stub
+     | S k => nest_with (line_ops_at parser fuel pf k) parser line_src fuel pf
+     end).
+
+Definition nspec_run (parser : list pstate -> list line -> pres) (lvl fuel pf : nat)
+    (src : lsource) (stdin : list line) : final :=
+  run (line_ops_at parser fuel pf lvl) parser fuel pf src stdin.
 
 (* The reference semantics. *)
 Definition spec_run (parser : list pstate -> list line -> pres) (fuel pf : nat)
